@@ -158,7 +158,12 @@ def _replace_returns(stmts: List[ast.stmt], target: Optional[ast.AST]) -> List[a
         if isinstance(s, ast.Return):
             if target is not None:
                 v = s.value if s.value is not None else ast.Constant(value=None)
-                out.append(ast.copy_location(ast.Assign(targets=[clone(target)], value=v, lineno=s.lineno, col_offset=s.col_offset), s))
+                if isinstance(target, ast.Tuple) and isinstance(v, ast.Tuple) and len(target.elts) == len(v.elts) and all(isinstance(t, ast.Name) for t in target.elts):
+                    # `a, b = helper()` with `return x, y`: element-wise, so that each name keeps a plain definition
+                    for t, ve in zip(target.elts, v.elts):
+                        out.append(ast.copy_location(ast.Assign(targets=[clone(t)], value=ve, lineno=s.lineno, col_offset=s.col_offset), s))
+                else:
+                    out.append(ast.copy_location(ast.Assign(targets=[clone(target)], value=v, lineno=s.lineno, col_offset=s.col_offset), s))
             out.append(ast.copy_location(ast.Break(), s))
             continue
         if isinstance(s, (ast.FunctionDef, ast.AsyncFunctionDef, ast.ClassDef)):
@@ -312,7 +317,8 @@ class _Flattener:
         kind = None
         if isinstance(s, ast.Expr):
             call, kind = _call_in(s.value), "stmt"
-        elif isinstance(s, ast.Assign) and len(s.targets) == 1 and isinstance(s.targets[0], (ast.Name, ast.Attribute, ast.Subscript)):
+        elif isinstance(s, ast.Assign) and len(s.targets) == 1 and (isinstance(s.targets[0], (ast.Name, ast.Attribute, ast.Subscript)) or (
+                isinstance(s.targets[0], ast.Tuple) and all(isinstance(t, ast.Name) for t in s.targets[0].elts))):
             call, kind, target = _call_in(s.value), "assign", s.targets[0]
         elif isinstance(s, ast.AnnAssign) and s.value is not None and isinstance(s.target, ast.Name):
             call, kind, target = _call_in(s.value), "assign", s.target
